@@ -11,7 +11,10 @@ from candidates import C  # noqa: E402
 STABLE = set(json.load(open("/root/.vp/BASELINE.json"))["stable_pass"])
 GROUPS = {}
 for c in C:
-    g = "registry_cache" if c["id"].startswith("registry_cache") else ("nmi_kt" if c["id"] in ("nmi_exact", "kt_exact") else c["id"])
+    g = ("registry_cache" if c["id"].startswith("registry_cache")
+         else "nmi_kt" if c["id"] in ("nmi_exact", "kt_exact")
+         else "dims_singletons" if c["id"] in ("dims_singletons_helper", "dims_singletons_apply", "registry_deepcopy_entries", "unit_copy_dims")
+         else c["id"])
     GROUPS.setdefault(g, []).append(c)
 
 
